@@ -1059,7 +1059,7 @@ func (k *c28) ruleWriter() {
 		env := args[len(args)-1]
 		pass := condEdges(wl, func(v ssa.Value) (bool, bool) {
 			bo, ok := v.(*ssa.BinOp)
-			if !ok || bo.Op != token.EQL {
+			if !ok || (bo.Op != token.EQL && bo.Op != token.NEQ) {
 				return false, false
 			}
 			m := func(a, b ssa.Value) bool {
@@ -1073,7 +1073,8 @@ func (k *c28) ruleWriter() {
 				}
 				return isLoadOf(b, wlCell)
 			}
-			return m(bo.X, bo.Y) || m(bo.Y, bo.X), true
+			// written as == (true edge) or as != with the write on the other side (false edge)
+			return m(bo.X, bo.Y) || m(bo.Y, bo.X), bo.Op == token.EQL
 		})
 		c.Check(guardedBy(wl, we, pass), "C28.wire-counter", "writeLoop · writeEvent guard", we.Pos(),
 			"event written only when eventIDSeq(env.id)==expected wire ID", "event write not guarded by eventIDSeq(env.id)==expectedWireID")
